@@ -1,14 +1,24 @@
 #!/bin/bash
 # usage: tools/sweep_seeds.sh [name-glob]   — re-runs every stored seeded change against its own
 # property's quick check (applies to /repo, runs, restores) and appends the outcome to the
-# confirmation log that tools/seed_meta.py reads. Prints one line per seed; exit 1 if one is missed.
+# confirmation log that tools/seed_meta.py reads. A seed recorded as caught only by another property's
+# check (meta.json checks_that_fire without its own id) is run against those. Exit 1 if one is missed.
 cd /verif || exit 2
 miss=0
 for d in seeded/${1:-C*}/; do
   name=$(basename "$d"); id=${name%%-*}
-  out=$(tools/try_seed.sh "/verif/$d/patch.diff" quick "$id" 2>&1)
-  rc=$(echo "$out" | sed -n "s/^== $id rc=\([0-9]*\).*/\1/p")
-  echo "check $id rc=${rc:-?}" >> "/root/scratch/confirm_$name.log" 2>/dev/null
-  if [ "$rc" = "1" ]; then echo "caught  $name"; else echo "MISSED  $name (rc=${rc:-?})"; miss=1; fi
+  ids="$id"
+  if [ -f "$d/meta.json" ]; then
+    fire=$(python3 -c "import json,sys;m=json.load(open('$d/meta.json'));f=m.get('checks_that_fire',[]);print(' '.join(f) if f and '$id' not in f else '')")
+    [ -n "$fire" ] && ids="$fire"
+  fi
+  out=$(tools/try_seed.sh "/verif/$d/patch.diff" quick $ids 2>&1)
+  caught=""
+  for x in $ids; do
+    rc=$(echo "$out" | sed -n "s/^== $x rc=\([0-9]*\).*/\1/p")
+    echo "check $x rc=${rc:-?}" >> "/root/scratch/confirm_$name.log" 2>/dev/null
+    [ "$rc" = "1" ] && caught="$caught $x"
+  done
+  if [ -n "$caught" ]; then echo "caught  $name (by$caught)"; else echo "MISSED  $name (tried $ids)"; miss=1; fi
 done
 exit $miss
